@@ -5,6 +5,7 @@ import (
 	"fmt"
 	"log/slog"
 	"strings"
+	"sync/atomic"
 	"time"
 
 	"verif/internal/ev"
@@ -26,18 +27,23 @@ func init() {
 }
 
 type timeStep struct {
-	Const   string `json:"constellation"`
-	MSM7    bool   `json:"msm7"`
-	UTC     string `json:"true_utc,omitempty"`
-	Illegal uint   `json:"illegal_timestamp,omitempty"`
-	c       ref.Constellation
-	u       time.Time
+	// NewStream: this message starts a new input stream, handed to a further
+	// HandleMessages call on the same handler (stream histories only)
+	NewStream bool   `json:"new_stream,omitempty"`
+	Const     string `json:"constellation"`
+	MSM7      bool   `json:"msm7"`
+	UTC       string `json:"true_utc,omitempty"`
+	Illegal   uint   `json:"illegal_timestamp,omitempty"`
+	c         ref.Constellation
+	u         time.Time
 }
 
 type timeHistory struct {
-	Start string     `json:"handler_start_time"`
-	Debug bool       `json:"debug_level"`
-	Steps []timeStep `json:"messages"`
+	// Streams: the messages go through Handler.HandleMessages, one call per stream
+	Streams bool       `json:"through_HandleMessages,omitempty"`
+	Start   string     `json:"handler_start_time"`
+	Debug   bool       `json:"debug_level"`
+	Steps   []timeStep `json:"messages"`
 }
 
 var zones = func() []*time.Location {
@@ -62,6 +68,11 @@ func checkStep(h *handler.Handler, st *timeStep, debug bool) (kind, detail strin
 	if p {
 		return "panic " + cl + "@" + site, ""
 	}
+	return judgeTimeMsg(m, err, st, t, ts)
+}
+
+// judgeTimeMsg applies the time oracle to one delivered message.
+func judgeTimeMsg(m *handler.Message, err error, st *timeStep, t int, ts uint) (kind, detail string) {
 	if m == nil || m.MessageType != t {
 		return "message-not-typed", fmt.Sprint(err)
 	}
@@ -149,11 +160,52 @@ func replayTimeHistory(k *timeHistory) (string, int) {
 		if st.UTC != "" {
 			st.u, _ = time.Parse(time.RFC3339Nano, st.UTC)
 		}
+		if k.Streams {
+			continue
+		}
 		if kind, d := checkStep(h, st, k.Debug); kind != "" {
 			return fmt.Sprintf("message %d: %s (%s)", i+1, kind, d), i
 		}
 	}
+	if k.Streams {
+		if kind, d, i := runTimeStreams(T, lvl, k.Steps); kind != "" {
+			return fmt.Sprintf("message %d: %s (%s)", i+1, kind, d), i
+		}
+	}
 	return "", 0
+}
+
+// runTimeStreams sends the messages through Handler.HandleMessages: the steps
+// are cut into streams at every NewStream mark, and each stream is one call on
+// the SAME handler with fresh channels (a reconnecting application).
+func runTimeStreams(T time.Time, lvl slog.Level, steps []timeStep) (kind, detail string, at int) {
+	h := handler.New(T, lvl)
+	for i := 0; i < len(steps); {
+		j := i + 1
+		for j < len(steps) && !steps[j].NewStream {
+			j++
+		}
+		var in []byte
+		for k := i; k < j; k++ {
+			in = append(in, ref.HeaderOnlyMSM(steps[k].c.MSMType(steps[k].MSM7), steps[k].c.Timestamp(steps[k].u))...)
+		}
+		msgs, fault := implHandleMessages(h, in)
+		if fault != "" {
+			return "stream " + fault, fmt.Sprintf("stream of messages %d..%d", i+1, j), i
+		}
+		if len(msgs) != j-i {
+			return "stream-delivery-count", fmt.Sprintf("stream of %d frames delivered %d messages", j-i, len(msgs)), i
+		}
+		for k := i; k < j; k++ {
+			st := &steps[k]
+			m := msgs[k-i]
+			if kind, detail := judgeTimeMsg(&m, nil, st, st.c.MSMType(st.MSM7), st.c.Timestamp(st.u)); kind != "" {
+				return kind, detail, k
+			}
+		}
+		i = j
+	}
+	return "", "", 0
 }
 
 // timeCheck enumerates start times and message histories.  relaxed=false is
@@ -168,7 +220,7 @@ func timeCheck(r *ev.Run, relaxed bool) {
 	if relaxed {
 		r.Rule = "for each of GPS, Galileo, GLONASS, BeiDou: start time T in {week start, +1 ms, +1 s, Wednesday noon, week end -1 s, -1 ms} of a constellation week, each in 4 time zones, in the week of 2023-05-10 and, with three start times each, in weeks of June 2013 and July 2010 (civil Moscow time UTC+4) and the 2019/2020 year end; first observation u in {week start, +1 ms, Wednesday noon, week end -1 ms, T-1 h, T-1 s, T-1 ms, T, T+1 ms, T+1 h} restricted to the same week (so u<T, u=T and u>T all occur); then every history of depth <=2 (quick) / <=3 (thorough) further messages of any constellation with the C06 step menu; messages are CRC-valid header-only MSM4/MSM7 frames through handler.GetMessage; both log levels. Oracle: SentAt and StartOfWeek parsed with the public DateLayout equal the model's instant and week start. Non-trivial = histories whose first observation differs from T; distinct = distinct (T, history)"
 	} else {
-		r.Rule = "start times T = Wednesday noon and, for each of GPS/Galileo, GLONASS and BeiDou, the roll-over instant -1 ms / +0 / +1 ms, each in UTC, Europe/London, Europe/Moscow and UTC+14, plus mid-week and GLONASS roll-over start times in June 2013, July 2010 (civil Moscow time UTC+4) and at the 2019/2020 year end; histories: every sequence of <=3 (quick) / <=4 (thorough, from the UTC start times; <=3 from the others) messages where each message belongs to one of the four constellations (MSM4 and MSM7 alternating) and its true time is the constellation's previous time advanced by one of {0, 1 ms, 1 s, 1 h, 1 d, 5 d 23:59:59.999, to 1 ms before the next roll-over, to the roll-over, to 1 ms after it} (first message: not earlier than T, same constellation week), or carries an illegal timestamp (7 days of ms; all ones; GLONASS day 7; GLONASS 24 h of ms); plus single-constellation histories of depth <=5 (quick) / <=6 (thorough); messages are CRC-valid header-only frames through handler.GetMessage at both log levels (implementation state is cloned at every branch). Oracle: SentAt and StartOfWeek parsed with the public DateLayout equal the true instant and week start of the reference time model; an illegal timestamp gives an error and no time and leaves later messages exact. Non-trivial = histories crossing at least one roll-over; distinct = distinct (T, history)"
+		r.Rule = "start times T = Wednesday noon and, for each of GPS/Galileo, GLONASS and BeiDou, the roll-over instant -1 ms / +0 / +1 ms, each in UTC, Europe/London, Europe/Moscow and UTC+14, plus mid-week and GLONASS roll-over start times in June 2013, July 2010 (civil Moscow time UTC+4) and at the 2019/2020 year end; histories: every sequence of <=3 (quick) / <=4 (thorough, from the UTC start times; <=3 from the others) messages where each message belongs to one of the four constellations (MSM4 and MSM7 alternating) and its true time is the constellation's previous time advanced by one of {0, 1 ms, 1 s, 1 h, 1 d, 5 d 23:59:59.999, to 1 ms before the next roll-over, to the roll-over, to 1 ms after it} (first message: not earlier than T, same constellation week), or carries an illegal timestamp (7 days of ms; all ones; GLONASS day 7; GLONASS 24 h of ms); plus single-constellation histories of depth <=5 (quick) / <=6 (thorough); messages are CRC-valid header-only frames through handler.GetMessage at both log levels (implementation state is cloned at every branch). Oracle: SentAt and StartOfWeek parsed with the public DateLayout equal the true instant and week start of the reference time model; an illegal timestamp gives an error and no time and leaves later messages exact; plus stream histories: four-message histories (first observation, a second constellation, then +0/+1 s/+1 d/+5 d 23:59:59.999/to the roll-over/+1 ms/+2 d, then +1 s/+3 d/past the next roll-over) delivered through Handler.HandleMessages and cut into one, two or three consecutive streams in every way, each stream a further call on the SAME handler with fresh channels. Non-trivial = histories crossing at least one roll-over; distinct = distinct (T, history)"
 	}
 	r.Assumptions = []string{"reference time model /verif/ref/gnsstime.go: GPS and Galileo weeks start Sunday 00:00:00 UTC - 18 s, BeiDou - 4 s, GLONASS day and week on UTC+3", "the precondition of the statement is enforced by construction: per constellation non-decreasing times, consecutive messages less than six days apart, first observation in T's constellation week" + map[bool]string{true: " (before, at or after T)", false: " and not before T"}[relaxed]}
 	const ms = time.Millisecond
@@ -375,9 +427,9 @@ func timeCheck(r *ev.Run, relaxed bool) {
 		rec(root)
 		r.Count(n, 0, tr, n)
 		if relaxed {
-			r.DistinctN += n
+			atomic.AddInt64(&r.DistinctN, n)
 		} else {
-			r.DistinctN += rolled
+			atomic.AddInt64(&r.DistinctN, rolled)
 		}
 		r.Outcome(fmt.Sprintf("constellation-set=%d", jb.only))
 		_ = total
@@ -386,6 +438,73 @@ func timeCheck(r *ev.Run, relaxed bool) {
 			r.Sample(map[string]interface{}{"handler_start_time": T.Format(time.RFC3339Nano), "example_history": "first observation, then +1 h, then to the roll-over, then +1 ms", "depth": maxDepth})
 		}
 	})
+	// stream histories: the same kind of history, but delivered through
+	// Handler.HandleMessages and cut into consecutive streams in every possible
+	// way, each stream a further call on the same handler
+	if !relaxed {
+		var sjobs [][]timeStep
+		var sT []time.Time
+		for _, T := range []time.Time{wed, ref.GPS.NextRollover(wed).Add(-time.Hour)} {
+			for _, c := range cons {
+				ro := c.NextRollover(T)
+				firsts := []time.Time{T.Add(time.Hour), ro.Add(-ms)}
+				for _, u1 := range firsts {
+					if !c.WeekStart(u1).Equal(c.WeekStart(T)) {
+						continue
+					}
+					var seconds []time.Time
+					for _, d := range []time.Duration{0, time.Second, 24 * time.Hour, 6*24*time.Hour - ms} {
+						seconds = append(seconds, u1.Add(d))
+					}
+					for _, d := range []time.Duration{0, ms, 2 * 24 * time.Hour} {
+						if u := c.NextRollover(u1).Add(d); u.Sub(u1) < 6*24*time.Hour {
+							seconds = append(seconds, u)
+						}
+					}
+					for _, u2 := range seconds {
+						thirds := []time.Time{u2.Add(time.Second), u2.Add(3 * 24 * time.Hour)}
+						if u := c.NextRollover(u2).Add(time.Hour); u.Sub(u2) < 6*24*time.Hour {
+							thirds = append(thirds, u)
+						}
+						for _, u3 := range thirds {
+							for cut := 0; cut < 4; cut++ { // which of messages 2 and 3 start a new stream
+								// a message of another constellation rides along in the first stream
+								o := cons[(int(c)+1)%4]
+								uo := T.Add(time.Minute)
+								if !o.WeekStart(uo).Equal(o.WeekStart(T)) {
+									uo = T // precondition: first observation in T's week
+								}
+								steps := []timeStep{{c: c, u: u1, MSM7: true}, {c: o, u: uo, MSM7: false},
+									{c: c, u: u2, MSM7: false, NewStream: cut&1 != 0}, {c: c, u: u3, MSM7: true, NewStream: cut&2 != 0}}
+								sjobs = append(sjobs, steps)
+								sT = append(sT, T)
+							}
+						}
+					}
+				}
+			}
+		}
+		parallelFor(len(sjobs), func(i int) {
+			debug := i%2 == 0
+			lvl := slog.LevelInfo
+			if debug {
+				lvl = slog.LevelDebug
+			}
+			kind, detail, at := runTimeStreams(sT[i], lvl, sjobs[i])
+			if kind != "" {
+				hist := timeHistory{Streams: true, Start: sT[i].Format(time.RFC3339Nano), Debug: debug}
+				for _, st := range sjobs[i][:at+1] {
+					st.Const = ref.ConstNames[st.c]
+					st.UTC = st.u.Format(time.RFC3339Nano)
+					hist.Steps = append(hist.Steps, st)
+				}
+				r.Violate(ev.Violation{Fingerprint: id + " streams " + kind, What: "through HandleMessages: " + kind + ": " + detail, Case: hist, ReplayKind: "time-history"})
+			}
+			r.Count(1, 0, 4, 1)
+			atomic.AddInt64(&r.DistinctN, 1)
+		})
+		r.Extra["stream_histories"] = len(sjobs)
+	}
 	r.Extra["start_times"] = len(starts)
 	r.Extra["depth_all_constellations"] = depth
 	r.Extra["depth_single_constellation"] = deep
